@@ -170,6 +170,25 @@ def refactorings():
     def unload(m):
         return pm.load_dataset(pm.unload_dataset(m)), {}, []
 
+    def rename_stmt(m):
+        # rename statement-level variables (individual parameters), not only parameters / random variables
+        names = [str(s.symbol) for s in m.statements.before_odes if hasattr(s, 'symbol')]
+        dv = {str(s) for s in m.dependent_variables}
+        names = [n for n in dict.fromkeys(names) if n not in dv][:2]
+        if not names:
+            raise ValueError('no statement variable')
+        mapping = {n: n + '_RN' for n in names}
+        return pm.rename_symbols(m, mapping), mapping, []
+
+    def compose(f, g):
+        def h(m):
+            m1, r1, e1 = f(m)
+            m2, r2, e2 = g(m1)
+            if r1 or r2 or e1 or e2:
+                raise ValueError('composition with renaming not supported')
+            return m2, {}, []
+        return h
+
     return {
         'mu_reference_model': plain(pm.mu_reference_model),
         'make_declarative': plain(pm.make_declarative),
@@ -183,6 +202,9 @@ def refactorings():
         'replace_non_random_rvs': nonrandom,
         'convert_model_generic': convert_roundtrip,
         'unload_load_dataset': unload,
+        'rename_symbols_statements': rename_stmt,
+        'declarative_then_mu': compose(plain(pm.make_declarative), plain(pm.mu_reference_model)),
+        'mu_then_cleanup': compose(plain(pm.mu_reference_model), plain(pm.cleanup_model)),
     }
 
 
@@ -235,13 +257,14 @@ def compare(m, m2, ren, extra, eq, tol=None, outputs_only=False):
             amap = {a: b for a, b in mapping.items() if a != b}
     full = dict(rmap)
     full.update(amap)
-    common = [s for s in d1.env if s in d2.env and (not outputs_only or str(s) in dvs1)]
+    # a renamed statement variable is compared with its new name (the old name may be re-introduced as a helper)
+    common = [s for s in d1.env if rmap.get(s, s) in d2.env and (not outputs_only or str(s) in dvs1)]
     for s in d1.env:
         if str(s) in dvs1 and s not in d2.env:
             res.append((f'value[{s}]', 'violated', dict(what='observation variable no longer defined')))
     for s in common:
         a = d1.env[s].xreplace(full)
-        b = d2.env[s]
+        b = d2.env[rmap.get(s, s)]
         v, info = eq.check(a, b, extra=extra, tol=tol)
         res.append((f'value[{s}]', {'equal': 'discharged', 'differ': 'violated'}.get(v, 'inconclusive'),
                     dict(info, before=str(a)[:300], after=str(b)[:300]) if v != 'equal' else None))
@@ -378,6 +401,27 @@ def check_unused_exact(m, eq):
         [('unused.function_preserved', 'discharged', None)] * (0 if any(v == 'violated' for _, v, _ in r2) else 1)
 
 
+def check_simplify(m, eq, limit=8):
+    """simplify_expression(model, e) == e for every parameter vector within bounds (it simplifies under the bounds as
+    assumptions), for the right-hand sides of the model's own statements and their full expressions."""
+    pm, sympy = _W['pm'], _W['sympy']
+    res = []
+    extra = bounds(m)
+    seen = 0
+    for st in list(m.statements.before_odes) + list(m.statements.after_odes):
+        if not hasattr(st, 'symbol') or seen >= limit:
+            continue
+        e = sympy.sympify(st.expression)
+        if not e.free_symbols:
+            continue
+        seen += 1
+        got = sympy.sympify(pm.simplify_expression(m, e))
+        v, info = eq.check(e, got, extra=extra)
+        res.append((f'simplify[{st.symbol}]', {'equal': 'discharged', 'differ': 'violated'}.get(v, 'inconclusive'),
+                    dict(info, before=str(e)[:300], after=str(got)[:300]) if v != 'equal' else None))
+    return res
+
+
 def run_case(case):
     if not _W:
         _init()
@@ -405,6 +449,8 @@ def run_case(case):
             res = check_extractors(m, eq)
         elif rname == 'unused_exact':
             res = check_unused_exact(m, eq)
+        elif rname == 'simplify_expression':
+            res = check_simplify(m, eq)
         else:
             try:
                 m2, ren, extra = refactorings()[rname](m)
@@ -442,7 +488,7 @@ def main():
     budget = 1500 if thorough else 170
     _init()
     labels = start_labels()
-    rnames = list(refactorings()) + ['solve_ode_system', 'extractors', 'unused_exact']
+    rnames = list(refactorings()) + ['solve_ode_system', 'extractors', 'unused_exact', 'simplify_expression']
     VARIANT_NAMES = ['', '+prop_error', '+iiv_joint', '+peripheral', '+fo_abs', '+mm_elim']
     cases = []
     for label in labels:
